@@ -134,6 +134,30 @@ func weightless(p []byte) string {
 	return string(encodeProof(nodes))
 }
 
+// kindConfusionAnywhere: the value record a proof ends in carries, as its value, the hashed body of a branch or short
+// node that lies on the honest path of ANY entry of the trie (the descent may have been steered there by other means).
+func kindConfusionAnywhere(w *world, proof []byte) bool {
+	_, fn, err := decodeProof(proof)
+	if err != nil || len(fn) == 0 || fn[len(fn)-1].Value == nil {
+		return false
+	}
+	last := fn[len(fn)-1].Value
+	var cum uint64
+	for _, e := range w.entries {
+		if _, hp, err := w.trie.GetBlockProof(cum + 1); err == nil {
+			if _, hn, err := decodeProof(hp); err == nil {
+				for _, n := range hn {
+					if v := asValueRecord(n); v != nil && bytes.Equal(v.Value.Value, last.Value) {
+						return true
+					}
+				}
+			}
+		}
+		cum += e.Weight
+	}
+	return false
+}
+
 // branchWeights lists the child weights of every branch element of a proof.
 func branchWeights(p []byte) string {
 	_, nodes, err := decodeProof(p)
@@ -319,7 +343,7 @@ func judgeWith(t fataler, w *world, block uint64, proof []byte, honest []byte, w
 		ev.Excluded(findReweight + ": accepted forgery that returns another real entry's value and differs from that entry's honest proof in branch child weights (the offsets were shifted)")
 		return "known-reweight-forgery"
 	}
-	if ev.Known(findKind) && kindConfusion(proof, honest) {
+	if ev.Known(findKind) && (kindConfusion(proof, honest) || kindConfusionAnywhere(w, proof)) {
 		ev.Excluded(findKind + ": accepted forgery whose last element is a value record with the hash of a branch/short node")
 		return "known-kind-confusion-forgery"
 	}
